@@ -6,13 +6,15 @@
 #  - on success copies patch/demo/notes into /verif/seeded/<PROP>-<mK>/ with meta.json
 set -u
 P="$1"; M="$2"
-SRC=/tmp/seedout/$P/$M
-WT=/tmp/seed/$P
+# optional overrides for later rounds: SRC_DIR (agent output), WT_DIR (its worktree), DEST_ID (name under /verif/seeded)
+SRC=${SRC_DIR:-/tmp/seedout/$P/$M}
+WT=${WT_DIR:-/tmp/seed/$P}
+DEST_ID=${DEST_ID:-$P-$M}
 [ -f "$SRC/patch.diff" ] || { echo "no patch at $SRC"; exit 2; }
 if [ ! -d "$WT" ]; then git -C /repo worktree add --detach "$WT" HEAD >/dev/null 2>&1 || exit 2; fi
 cd "$WT" || exit 2
 git checkout -q -- . 
-LOG=/tmp/seedout/$P/$M/confirm.log; : > "$LOG"
+LOG=$SRC/confirm.log; : > "$LOG"
 build() { (test -f _build/build.ninja || cmake -G Ninja -B _build -DCMAKE_BUILD_TYPE=RelWithDebInfo -DCMAKE_CXX_COMPILER=/usr/bin/g++ -DCMAKE_CXX_FLAGS=-Wno-error . ) >>"$LOG" 2>&1 && cmake --build _build -j16 >>"$LOG" 2>&1; }
 rundemo() { ( cd "$SRC" && rm -f demo && bash ./build_demo.sh "$WT" "$WT/_build" >>"$LOG" 2>&1 && timeout 120 ./demo >>"$LOG" 2>&1; echo $? ) | tail -1; }
 git apply "$SRC/patch.diff" || { echo "patch does not apply"; exit 2; }
@@ -30,16 +32,16 @@ echo "$TESTS" | grep -q '100% tests passed' || ok=0
 [ "$DEMO_PATCHED" != "0" ] || ok=0
 [ "$DEMO_CLEAN" = "0" ] || ok=0
 if [ $ok = 1 ]; then
-  D=/verif/seeded/$P-$M; mkdir -p "$D"
+  D=/verif/seeded/$DEST_ID; mkdir -p "$D"
   cp "$SRC/patch.diff" "$SRC/demo.cpp" "$SRC/build_demo.sh" "$D/" ; cp "$SRC/notes.md" "$D/" 2>/dev/null
-  python3 - "$P" "$M" "$TESTS" "$DEMO_PATCHED" "$DEMO_CLEAN" <<'PY'
+  python3 - "$P" "$DEST_ID" "$TESTS" "$DEMO_PATCHED" "$DEMO_CLEAN" "$WT" <<'PY'
 import json,sys,os
-P,M,tests,dp,dc=sys.argv[1:6]
-d="/verif/seeded/%s-%s"%(P,M)
+P,DID,tests,dp,dc,wt=sys.argv[1:7]
+d="/verif/seeded/%s"%DID
 notes=open(d+"/notes.md").read() if os.path.exists(d+"/notes.md") else ""
-meta={"property":P,"id":"%s-%s"%(P,M),"origin":"independent sub-agent given only the property text and a scratch worktree",
+meta={"property":P,"id":DID,"origin":"independent sub-agent given only the property text and a scratch worktree",
  "needs_to_manifest":notes[:1500],
- "confirmed":{"worktree":"/tmp/seed/%s (scratch, base = /repo HEAD at the time)"%P,
+ "confirmed":{"worktree":"%s (scratch, base = /repo HEAD at the time)"%wt,
    "suite_with_patch":tests,"demo_exit_with_patch":dp,"demo_exit_without_patch":dc,
    "commands":["git apply patch.diff","cmake --build _build","ctest --test-dir _build -j8","bash build_demo.sh <wt> <wt>/_build && ./demo","git checkout -- . && rebuild && ./demo"]},
  "detected_by":None}
